@@ -170,7 +170,15 @@ def error_fn_rules(crate, path, loc_fn, res, rule):
                     for a_ in tm_["args"]:
                         if term_mentions(deep(v, v.origin(a_)), lambda x: x[0] == "field" and x[2] == var and x[3] == "accepted" and strip_refs(x[1]) == ("param", 2)):
                             uses += 1
-                if uses:
+                sel = []
+                for c_ in calls:
+                    nm_ = (call_name(v, c_) or "").split("::")[-1]
+                    if nm_ in ("take", "skip", "filter", "step_by", "rev", "last", "nth", "take_while", "skip_while", "truncate", "first", "split_first", "split_last") and \
+                            term_mentions(c_, lambda x: x[0] == "field" and x[2] == var and x[3] == "accepted" and strip_refs(x[1]) == ("param", 2)):
+                        sel.append(nm_)
+                if sel:
+                    fs.append(fnd(rule, v, "the %s message does not list every accepted alternative (%s selects among them)" % (var, ", ".join(sorted(set(sel))))))
+                elif uses:
                     fs.append(und(rule, v, "how the %s message lists the accepted alternatives was not read (not the iter().map().collect().join() chain): not recognised (undecided)" % var))
                 else:
                     fs.append(fnd(rule, v, "the %s message does not list every accepted alternative" % var))
